@@ -371,7 +371,7 @@ def run_prop(prop, tier, rule):
                           detail="an invariant of spec/Dom.tla is violated in MC_Dom (see TLC output): " + r["out"][-1500:],
                           case=dict(tlc_tail=r["out"][-3000:]), build="tlc", replay=dict(harness="MC_Dom")))
     recs = gen_behaviours(ctx, 60 if q else 200, 25 if q else 40)
-    recs = recs + gen_focus(ctx, 3 if q else 4)
+    recs = recs + gen_focus(ctx, 4 if (not q and prop == "C12") else 3)
     rows = rows_of(recs)
     builds = ["asan-avx2", "prod-avx2"] if q else ["asan-avx2", "prod-avx2", "asan-sse", "prod-dyn"]
     fails, ledgers, drift = replay(ctx, rows, builds)
